@@ -186,6 +186,14 @@ impl<'tcx> Cx<'tcx> {
                         let _ = write!(o, ",\"named\":{}", q(&self.path(uv.def)));
                     }
                 }
+                if let mir::Const::Val(mir::ConstValue::Scalar(rustc_middle::mir::interpret::Scalar::Ptr(ptr, _)), _) = c.const_ {
+                    let (prov, _off) = ptr.into_raw_parts();
+                    if let Some(rustc_middle::mir::interpret::GlobalAlloc::Static(did)) =
+                        self.tcx.try_get_global_alloc(prov.alloc_id())
+                    {
+                        let _ = write!(o, ",\"static\":{}", q(&self.path(did)));
+                    }
+                }
                 if !done {
                     if ty.is_integral() || ty.is_bool() || ty.is_char() {
                         if let Some(si) = c.const_.try_eval_scalar_int(self.tcx, env) {
